@@ -41,6 +41,8 @@ theorem C05_nonleaving_effects_keep_operands (m : M) (e : Eff)
   | popClear => exact he.elim
   | popClearN k => exact he.elim
   | throwTo idx v => exact he.elim
+  | suspend ms => exact he.elim
+  | terminateSelf => exact he.elim
 
 /-! ## 2. A finished block contributes exactly one value to its caller -/
 
@@ -134,17 +136,8 @@ theorem C05_while_exchange_clean (inCode : Bool) (loops : Nat) (cond code : List
     (x : List Instr) (hx : (behDecide (.whileB inCode loops cond code) res m).2.2.1 = .exchange x) :
     (behDecide (.whileB inCode loops cond code) res m).1 = [.clearV, .setVars []] := by
   unfold behDecide at hx ⊢
-  cases inCode with
-  | false =>
-    simp only [Bool.not_false, if_true] at hx ⊢
-    split at hx <;> simp_all
-    split at hx <;> simp_all
-  | true =>
-    simp only [Bool.not_true, Bool.false_eq_true, if_false] at hx ⊢
-    split at hx <;> simp_all
-    split at hx
-    · simp at hx
-    · next hc => rw [if_neg (by simpa using hc)]
+  cases inCode <;> simp only [Bool.not_false, Bool.not_true, if_true, if_false, Bool.false_eq_true] at hx ⊢ <;>
+    (repeat' split) <;> simp_all
 
 /-! ## Non-vacuity -/
 
